@@ -977,6 +977,8 @@ func (r *c08Run) step(st []any) {
 		}
 		r.log.emit("x.begin", "x", name, "s", s.name, "kind", "get", "method", "GET", "reqs", reqs, "rids", []string{}, "target", target, "leid", leid, "lidx", lidx, "stream", stream)
 		r.start(name, s.name, "get", "GET", h, "")
+		r.settle()
+		r.disarm("W:" + name) // a writer gate only concerns the replay of this GET
 	case "del", "delf":
 		s := r.sess[arg(1)]
 		if s == nil || s.deleted || r.sc.Cfg.Stateless {
@@ -1007,8 +1009,8 @@ func (r *c08Run) step(st []any) {
 			key = op[4:] + ":" + arg(1) // gateF g1 / gateW g1 / gateO p.s1.r1
 		}
 		r.mu.Lock()
-		if g := r.gates[key]; g != nil && g.hit {
-			applied = false // that gate is holding a goroutine right now
+		if g := r.gates[key]; (g != nil && g.hit) || (op == "gateW" && !r.sc.Cfg.Store) {
+			applied = false // that gate is holding a goroutine right now (gateW: only with resumable streams)
 		} else {
 			r.gates[key] = &c08Gate{ch: make(chan struct{})}
 		}
